@@ -143,7 +143,9 @@ func build() {
 	// platform leg: the width of int is part of the environment. A share of every plan also runs in a 386 binary.
 	have386 = false
 	if os.Getenv("VERIF_NO_386") == "" {
-		c386 := exec.Command(goBin, append(append([]string{"test"}, modfileArgs()...), "-c", "-tags", "verif", "-o", simTest386, ".")...)
+		// build tags are environment too: the platform binary is also the one built with the conventional "purego" and
+		// "appengine" tags that libraries use to select fallback implementations
+		c386 := exec.Command(goBin, append(append([]string{"test"}, modfileArgs()...), "-c", "-tags", "verif purego appengine", "-o", simTest386, ".")...)
 		c386.Dir = simDir
 		c386.Env = append(goEnv(), "GOARCH=386")
 		if out, err := c386.CombinedOutput(); err != nil {
@@ -562,7 +564,7 @@ func main() {
 	extra := map[string]any{}
 	if W > Wmain {
 		extra["platform_leg"] = map[string]any{"goarch": "386", "workers": W - Wmain, "share_of_plan": fmt.Sprintf("%d/%d", W-Wmain, 4*Wmain),
-			"what": "the same simulator built for GOARCH=386 (32-bit int, 4-octet alignment of 64-bit words) executes this share of the plan, each of its workers confined to 1, 2, 3 or 5 CPUs (runtime.NumCPU); its findings replay in the 386 binary under the same affinity"}
+			"what": "the same simulator built for GOARCH=386 with the build tags purego and appengine (32-bit int, 4-octet alignment of 64-bit words, fallback implementations) executes this share of the plan, each of its workers confined to 1, 2, 3 or 5 CPUs (runtime.NumCPU); its findings replay in the 386 binary under the same affinity"}
 	}
 	if prop == "C13" {
 		lines = append(lines, raceLeg(tier, seed, known, stats, extra)...)
